@@ -255,6 +255,35 @@ def run(ctx):
                     if [c == -1 for c in tr] != [c == 0 for c in ycodes] or inv_codes != ycodes:
                         ctx.violation("label_encoder", "roundtrip", f"transform={tr}", {"vals": repr(vals), "sentinel": repr(s), "dtype": name, "classes": repr(classes)},
                                       what="inverse_transform(transform(y)) != y or missing labels not mapped to -1")
+                    # two-dimensional label arrays in every memory layout (C, Fortran, transposed / strided views): transform is
+                    # element-wise and inverse_transform(transform(y)) reproduces y position by position; the encoded matrix fed to
+                    # inverse_transform is itself re-laid-out independently (codes computed elsewhere arrive in any layout)
+                    n_ = len(vals)
+                    if n_ >= 2 and n_ % 2 == 0:
+                        for shape in ((n_ // 2, 2), (2, n_ // 2)):
+                            for lay in range(4):
+                                a2 = relayout(arr.reshape(shape), lay)
+                                try:
+                                    t2d = np.asarray(le.transform(a2))
+                                    i2d = np.asarray(le.inverse_transform(relayout(t2d.copy(), (lay + len(emeta)) % 4)))
+                                    i2d_same = np.asarray(le.inverse_transform(t2d))
+                                except Exception as e:
+                                    ctx.violation("label_encoder_2d", "exception_transform", repr(e)[:200], {"vals": repr(vals), "sentinel": repr(s), "dtype": name, "classes": repr(classes), "shape": shape, "layout": lay})
+                                    continue
+                                ctx.count("label_encoder_2d")
+                                exp_t = np.array(tr, dtype=int).reshape(shape)
+                                bad2 = None
+                                if t2d.shape != shape or not np.array_equal(t2d, exp_t):
+                                    bad2 = f"transform of the {shape} array (layout {lay}) = {t2d.tolist()}, element-wise expectation {exp_t.tolist()}"
+                                else:
+                                    for nm_, got in (("re-laid-out codes", i2d), ("codes as returned", i2d_same)):
+                                        if got.shape != shape or [code2(v) for v in got.ravel()] != ycodes:
+                                            bad2 = f"inverse_transform({nm_}) of the {shape} array (layout {lay}) = {got.tolist()}, original {a2.tolist()}"
+                                            break
+                                if bad2:
+                                    ctx.violation("label_encoder_2d", "roundtrip", bad2, {"vals": repr(vals), "sentinel": repr(s), "dtype": name, "classes": repr(classes), "shape": shape, "layout": lay},
+                                                  what="2-D label array: inverse_transform(transform(y)) != y (or transform is not element-wise)")
+                                    break
                     t2 = [int(c) for c in le.transform(np.asarray(le.classes_))] if len(le.classes_) else []
                     if t2 != list(range(len(le.classes_))) or cls_codes != sorted(cls_codes):
                         ctx.violation("label_encoder", "classes_range", f"transform(classes_)={t2}", {"vals": repr(vals), "sentinel": repr(s), "dtype": name, "classes": repr(classes)},
